@@ -19,7 +19,10 @@
 //	vote <k> <lock> <v,v,..> <bad>        bad = index of the first candidate that is not an active v2 producer, or n (oracle value);
 //	                                      Voting (DPoS v2 content), real context check; candidates = v2 producers 0..n-1
 //	retv <k> <v>                          ReturnVotes, real context check
-//	end                                   State.ProcessBlock; prints every account and stake
+//	crreg <c> <amount> / crdep <c> <v>    environment: RegisterCR / payment to the candidate's deposit address
+//	crcancel <c>                          UnregisterCR, real context check
+//	crret <c> <inp> <tinp> <change> <out> <utxos>   ReturnCRDepositCoin, real context check
+//	end                                   State.ProcessBlock + Committee.ProcessBlock; prints every account, stake, CR deposit
 package main
 
 import (
@@ -28,6 +31,8 @@ import (
 	"encoding/hex"
 	"fmt"
 	"math/big"
+	"os"
+	"runtime/debug"
 	"sort"
 	"strconv"
 	"strings"
@@ -99,6 +104,7 @@ type world struct {
 	pending []interfaces.Transaction
 	owners  map[int]*key
 	stakes  map[int]*key
+	crKeys  map[int]*key
 	v2s     []int // v2 producers in registration order (vote candidates)
 	utxos   []*utxo
 	newUtxo []*utxo // created by txs queued in the current block
@@ -132,6 +138,7 @@ func newWorld(t []string) *world {
 	p.DPoSConfiguration.IllegalPenalty = common.Fixed64(i64(t[7]))
 	p.CRConfiguration.ChangeCommitteeNewCRHeight = 0
 	p.CRConfiguration.CRVotingStartHeight = 0
+	p.CRConfiguration.CRCommitteeStartHeight = 100000000 // the whole run is the first CR voting period
 	p.DPoSV2StartHeight = 0
 	p.VoteStatisticsHeight = 0
 	p.EnableActivateIllegalHeight = 0
@@ -141,10 +148,11 @@ func newWorld(t []string) *world {
 	ckp := checkpoint.NewManager(p)
 	cm := crstate.NewCommittee(p, ckp)
 	st := state.NewState(p, nil, nil, nil, func() bool { return false }, nil, nil, nil, nil, nil, nil, nil)
+	cm.RegisterFuncitons(&crstate.CommitteeFuncsConfig{}) // wires State.getHistoryMember, as the node's start-up does
 	chain := &blockchain.BlockChain{}
 	chain.SetState(st)
 	chain.SetCRCommittee(cm)
-	return &world{params: p, st: st, cm: cm, chain: chain, owners: map[int]*key{}, stakes: map[int]*key{}, blockIn: map[int]bool{}}
+	return &world{params: p, st: st, cm: cm, chain: chain, owners: map[int]*key{}, stakes: map[int]*key{}, crKeys: map[int]*key{}, blockIn: map[int]bool{}}
 }
 
 func (w *world) owner(o int) *key {
@@ -162,6 +170,28 @@ func (w *world) stake(o int) *key {
 		w.stakes[o] = k
 	}
 	return k
+}
+func (w *world) cr(o int) *key {
+	k, ok := w.crKeys[o]
+	if !ok {
+		k = mkKey(4, o)
+		w.crKeys[o] = k
+	}
+	return k
+}
+func crCID(k *key) common.Uint168 {
+	c, err := crstate.GetCIDByCode(k.code)
+	if err != nil {
+		panic("harness: cid")
+	}
+	return *c
+}
+func crDepositHash(k *key) common.Uint168 {
+	ct, err := contract.CreateDepositContractByCode(k.code)
+	if err != nil {
+		panic("harness: cr deposit contract")
+	}
+	return *ct.ToProgramHash()
 }
 func depositHash(k *key) common.Uint168 {
 	h, err := contract.PublicKeyToDepositProgramHash(k.pk)
@@ -207,6 +237,10 @@ func errClass(e error) string {
 		{"vote rights not enough", "notenough"},
 		{"can not cancel", "state"},
 		{"getting unknown producer", "noprod"},
+		{"signer must be candidate or member", "nocr"},
+		{"candidate overspend deposit", "overspend"},
+		{"unregister unknown CR", "nocr"},
+		{"unregister canceled or returned CR", "state"},
 	} {
 		if strings.Contains(s, kv[0]) {
 			return kv[1]
@@ -267,6 +301,24 @@ func (w *world) dump() string {
 		}
 		fmt.Fprintf(&b, " %d:%d:%d", o, int64(r), int64(u))
 	}
+	b.WriteString(" R")
+	ids = ids[:0]
+	for o := range w.crKeys {
+		ids = append(ids, o)
+	}
+	sort.Ints(ids)
+	for _, o := range ids {
+		cid := crCID(w.crKeys[o])
+		if !w.cm.Exist(cid) {
+			continue
+		}
+		st := -1
+		if c := w.cm.GetCandidate(cid); c != nil {
+			st = int(c.State)
+		}
+		cs := w.cm.GetState()
+		fmt.Fprintf(&b, " %d:%d:%d:%d:%d", o, int64(cs.GetTotalAmount(cid)), int64(cs.GetDepositAmount(cid)), int64(w.cm.GetPenalty(cid)), st)
+	}
 	return b.String()
 }
 
@@ -299,6 +351,17 @@ func exec(t []string) string {
 		}
 		blk := &types.Block{Header: ctypes.Header{Height: w.height, Timestamp: w.height * 120}, Transactions: w.pending}
 		w.st.ProcessBlock(blk, nil, 0)
+		func() {
+			defer func() {
+				if e := recover(); e != nil {
+					if os.Getenv("HX_DEBUG") != "" {
+						fmt.Fprintln(os.Stderr, string(debug.Stack()))
+					}
+					panic(e)
+				}
+			}()
+			w.cm.ProcessBlock(blk, nil)
+		}()
 		w.inBlock = false
 		for id := range w.blockIn {
 			w.utxos[id].spent = true
@@ -428,6 +491,89 @@ func exec(t []string) string {
 		tx := w.mk(ctypes.IllegalProposalEvidence, 0, pl, nil, nil, nil)
 		w.pending = append(w.pending, tx)
 		return "queued"
+	case "crreg":
+		o := int(i64(t[1]))
+		k := w.cr(o)
+		amount := common.Fixed64(i64(t[2]))
+		did, _ := crstate.GetDIDByCode(k.code)
+		info := &payload.CRInfo{Code: k.code, CID: crCID(k), DID: *did, NickName: fmt.Sprintf("cr%d", o), Url: "http://x", Location: 1}
+		tx := w.mk(ctypes.RegisterCR, payload.CRInfoDIDVersion, info, nil, []*ctypes.Output{{ProgramHash: crDepositHash(k), Value: amount}}, nil)
+		w.pending = append(w.pending, tx)
+		w.utxos = append(w.utxos, &utxo{owner: 1000 + o, value: amount, op: ctypes.NewOutPoint(tx.Hash(), 0), born: w.height})
+		return "queued"
+	case "crdep":
+		o := int(i64(t[1]))
+		k := w.cr(o)
+		v := common.Fixed64(i64(t[2]))
+		tx := w.mk(ctypes.TransferAsset, 0, &payload.TransferAsset{}, nil, []*ctypes.Output{{ProgramHash: crDepositHash(k), Value: v}}, nil)
+		w.pending = append(w.pending, tx)
+		w.utxos = append(w.utxos, &utxo{owner: 1000 + o, value: v, op: ctypes.NewOutPoint(tx.Hash(), 0), born: w.height})
+		return "queued"
+	case "crcancel":
+		o := int(i64(t[1]))
+		k := w.cr(o)
+		pl := &payload.UnregisterCR{CID: crCID(k)}
+		buf := new(bytes.Buffer)
+		pl.SerializeUnsigned(buf, payload.UnregisterCRVersion)
+		sig, err := crypto.Sign(k.priv, buf.Bytes())
+		if err != nil {
+			panic("harness: sign " + err.Error())
+		}
+		pl.Signature = sig
+		tx := w.mk(ctypes.UnregisterCR, payload.UnregisterCRVersion, pl, nil, nil, []*program.Program{{Code: k.code, Parameter: []byte{0}}})
+		v := verdict(tx)
+		if v == "accept" {
+			w.pending = append(w.pending, tx)
+		}
+		return v
+	case "crret":
+		o := int(i64(t[1]))
+		k := w.cr(o)
+		inp, tinp, change, out := common.Fixed64(i64(t[2])), common.Fixed64(i64(t[3])), common.Fixed64(i64(t[4])), common.Fixed64(i64(t[5]))
+		dh := crDepositHash(k)
+		var ins []*ctypes.Input
+		refs := map[*ctypes.Input]ctypes.Output{}
+		var sum, tsum common.Fixed64
+		var ids []int
+		if t[6] != "-" {
+			for _, s := range strings.Split(t[6], ",") {
+				id := int(i64(s))
+				if id < 0 || id >= len(w.utxos) || w.utxos[id].spent || w.blockIn[id] || w.utxos[id].owner != 1000+o || w.utxos[id].born >= w.height {
+					panic("harness: bad utxo id in crret")
+				}
+				u := w.utxos[id]
+				in := &ctypes.Input{Previous: *u.op, Sequence: 0}
+				ins = append(ins, in)
+				refs[in] = ctypes.Output{ProgramHash: dh, Value: u.value}
+				sum += u.value
+				tsum += w.cm.GetState().DepositOutputs[in.ReferKey()]
+				ids = append(ids, id)
+			}
+		}
+		if sum != inp {
+			panic("harness: inp in op differs from the referenced utxos")
+		}
+		if tsum != tinp {
+			return "tinp-mismatch"
+		}
+		var outs []*ctypes.Output
+		if change != 0 {
+			outs = append(outs, &ctypes.Output{ProgramHash: dh, Value: change})
+		}
+		outs = append(outs, &ctypes.Output{ProgramHash: standardHash(k), Value: out})
+		tx := w.mk(ctypes.ReturnCRDepositCoin, 0, &payload.ReturnDepositCoin{}, ins, outs, []*program.Program{{Code: k.code, Parameter: []byte{0}}})
+		tx.SetReferences(refs)
+		v := verdict(tx)
+		if v == "accept" {
+			w.pending = append(w.pending, tx)
+			for _, id := range ids {
+				w.blockIn[id] = true
+			}
+			if change != 0 {
+				w.utxos = append(w.utxos, &utxo{owner: 1000 + o, value: change, op: ctypes.NewOutPoint(tx.Hash(), 0), born: w.height})
+			}
+		}
+		return v
 	case "stake":
 		o := int(i64(t[1]))
 		k := w.stake(o)
